@@ -324,7 +324,7 @@ def _run_scenario(arg):
 def run(ctx, family="queue"):
     if family == "queue":
         basic, others = scenarios(ctx.tier)
-        b_basic, b_other = (2, 1) if ctx.quick else (3, 2)
+        b_basic, b_other = (2, 1) if ctx.quick else (2, 1)
     elif family == "drop":
         basic, others = [], drop_scenarios(ctx.tier)
         b_basic, b_other = (1, 1) if ctx.quick else (2, 2)
@@ -337,9 +337,17 @@ def run(ctx, family="queue"):
     for s in basic:
         n = 16 if b_basic >= 3 else 6
         items += [(s.name, b_basic, first, k, n, ctx.prop) for first in (0, 1) for k in range(n)]
+    deep = []
     for s in others:
-        n = 16 if b_other >= 3 else (4 if b_other >= 2 else 1)
-        items += [(s.name, b_other, first, k, n, ctx.prop) for first in (0, 1) for k in range(n)]
+        b = b_other
+        if not ctx.quick and family == "queue" and len(s.ops) == 1:
+            b = 2                  # thorough: every single-operation scenario at bound 2
+        n = 16 if b >= 3 else (4 if b >= 2 else 1)
+        items += [(s.name, b, first, k, n, ctx.prop) for first in (0, 1) for k in range(n)]
+    if not ctx.quick and family == "queue":
+        # thorough: one scenario at preemption bound 3 (about 10^6 executions)
+        deep = [basic[0]]
+        items += [(s.name, 3, first, k, 64, ctx.prop) for s in deep for first in (0, 1) for k in range(64)]
     res = ctx.pmap(_run_scenario, items)
     c = ctx.cov
     nexec = 0
@@ -348,7 +356,7 @@ def run(ctx, family="queue"):
         nexec += r["stats"]["executions"]
         for v in r["viol"]:
             ctx.violation(*v)
-        p = per.setdefault(r["name"], {"scenario": r["name"], "preemption_bound": r["bound"], "executions": 0,
+        p = per.setdefault((r["name"], r["bound"]), {"scenario": r["name"], "preemption_bound": r["bound"], "executions": 0,
                                        "max_points": 0, "outcomes": set()})
         p["executions"] += r["stats"]["executions"]
         p["max_points"] = max(p["max_points"], r["stats"]["max_points"])
@@ -358,15 +366,16 @@ def run(ctx, family="queue"):
         p["distinct_linearizations_observed"] = len(p.pop("outcomes"))
         runs.append(p)
     c["schedules_executed"] = nexec
-    c["schedule_scenarios"] = len(per)
+    c["schedule_scenarios"] = len({k[0] for k in per})
     c["preemption_bound_basic"] = b_basic
     c["preemption_bound_other"] = b_other
+    c["preemption_bound_max"] = max(p["preemption_bound"] for p in runs)
     c["schedule_runs"] = runs
     c["scenarios_with_more_than_one_outcome"] = sum(1 for p in runs if p["distinct_linearizations_observed"] > 1)
     c["traces_validated_against_impl"] = c.get("traces_validated_against_impl", 0) + nexec
     ctx.sample({"schedule_scenario": (basic + others)[0].name, "threads": ["socket: main-loop dispatch", "clock: clck_handler(%d)" % F]})
-    ctx.assumptions += ["two threads, one or two socket operations against one tick; preemption bound %d on the basic scenarios, %d on the others"
-                        % (b_basic, b_other),
+    ctx.assumptions += ["two threads, one or two socket operations against one tick; preemption bound %d on the basic scenarios, %d on the others%s"
+                        % (b_basic, b_other, "; thorough: 2 on every single-operation scenario and 3 on %s" % deep[0].name if deep else ""),
                         "scheduling points at shared attribute access / container iteration / lock operations (finer than CPython's own switch points)"]
 
 
